@@ -184,3 +184,90 @@ flg:  .skip {8 * n}
 rres: .skip {8 * n}
 rflg: .skip {8 * n}
 """
+
+
+# ---------------------------------------------------------------------------------------------
+# TLS forms (C14): every test computes the address of a thread-local variable through a relaxable
+# access sequence (res) and through the local-exec sequence `mov %fs:0; lea x@tpoff` (rres).
+
+TLS_SETUP = """
+    # thread pointer: an aligned address inside tls_area with room below it; %fs:0 holds the pointer itself
+    lea tls_area+4*4096(%rip), %rsi
+    and $-4096, %rsi
+    mov %rsi, (%rsi)
+    mov $158, %eax
+    mov $0x1002, %edi
+    syscall
+"""
+
+
+def tls_test(i, form, reg, var):
+    r = R64[reg]
+    if form == "gd":
+        seq = f"""    .byte 0x66
+    leaq {var}@tlsgd(%rip), %rdi
+    .word 0x6666
+    rex64
+    call __tls_get_addr@PLT
+"""
+        got = "rax"
+    elif form == "ld":
+        seq = f"""    leaq {var}@tlsld(%rip), %rdi
+    call __tls_get_addr@PLT
+    leaq {var}@dtpoff(%rax), %rax
+"""
+        got = "rax"
+    elif form == "ie-mov":
+        seq = f"""    movq {var}@gottpoff(%rip), %{r}
+    addq %fs:0, %{r}
+"""
+        got = r
+    elif form == "ie-add":
+        seq = f"""    movq %fs:0, %{r}
+    addq {var}@gottpoff(%rip), %{r}
+"""
+        got = r
+    elif form == "desc":
+        seq = f"""    leaq {var}@tlsdesc(%rip), %rax
+    call *{var}@tlscall(%rax)
+    addq %fs:0, %rax
+"""
+        got = "rax"
+    else:
+        raise ValueError(form)
+    return f"""
+    # test {i}: TLS {form} {var} -> %{got}
+    .globl T_{i}
+T_{i}:
+{seq}    mov %{got}, res+{8 * i}(%rip)
+    movq $0, flg+{8 * i}(%rip)
+    movq %fs:0, %rax
+    leaq {var}@tpoff(%rax), %rax
+    mov %rax, rres+{8 * i}(%rip)
+    movq $0, rflg+{8 * i}(%rip)
+"""
+
+
+TLS_DEFS = """
+    .text
+    .globl __tls_get_addr
+__tls_get_addr:                 # must never run: every GD/LD sequence has to be relaxed in an executable
+    mov $0xdead, %eax
+    ret
+    .section .tdata,"awT",@progbits
+    .balign 8
+y0: .quad 0x7777
+    .section .tbss,"awT",@nobits
+    .balign 8
+x0: .skip 8
+x1: .skip 8
+    .skip 4096
+xfar: .skip 8
+    .bss
+    .balign 4096
+tls_area: .skip 8*4096
+"""
+
+
+def tls_program(tests_asm, n):
+    return program(TLS_SETUP + tests_asm, n, [], TLS_DEFS)
